@@ -92,6 +92,9 @@ func parseSet(str string) Set {
 func buildSetMod(seed uint64, m int) (bin []byte, arg, want uint32, nloc int) {
 	rng := c.NewRng(seed*7777 + uint64(m)*131 + 5)
 	n := 2 + rng.Intn(3)
+	if m%2 == 0 { // every other module has 18-21 local functions: listener sets can then differ in functions 8 and 16 apart
+		n = 16 + rng.Intn(4)
+	}
 	arg = uint32(rng.U64())
 	md := &c.Mod{}
 	md.Types = [][]byte{c.FT(c.B(c.I32), c.B(c.I32))}
@@ -398,6 +401,12 @@ func lattice(rng *c.Rng, nloc int, full bool) []Set {
 	mb := 1 + uint64(rng.Intn(1<<uint(nloc)-1))
 	for mb == ma {
 		mb = 1 + uint64(rng.Intn(1<<uint(nloc)-1))
+	}
+	if nloc > 9 { // sets that differ only in a function 8 apart from one that is in both
+		ma, mb = 1<<1, 1<<1|1<<9
+		if rng.Bool() {
+			ma, mb = 0xff, 1<<uint(nloc)-1-(1<<uint(rng.Intn(nloc-8))<<8) // functions 0..7 vs all but one of the later ones
+		}
 	}
 	ps := []Set{
 		base,
